@@ -13,6 +13,12 @@ the input satisfies the hypotheses of the Lean minimality theorems (`minimality_
 line per theorem), by an independent Myhill–Nerode count (Moore partition refinement over the
 real object's dicts, `nerode_size`) compared with `len(states)`.  Inputs on which the Lean error
 theorems say the constructor raises (`expected_error`) must raise that exception.
+
+Programs sharing argument objects (`shared_argument_programs`, generator and pure semantics in
+harness/c15_programs.py): 2–4 constructor calls over ONE live object per argument name; the same oracle
+judges every result against the values the caller wrote, every argument object is compared before and
+after every call, failures are re-confirmed on fresh objects, shortened to the fewest steps and reported
+with the program as the replay.
 """
 from __future__ import annotations
 
@@ -35,7 +41,15 @@ RULE = ("a case = (constructor, alphabet, pattern / pattern set in live iteratio
         "with a symbol outside the alphabet, every constructor over the empty alphabet, negative "
         "min_length / max_length), then shaped random (periodic / self-overlapping patterns of every border "
         "length, sets where one pattern is a prefix/suffix/infix of another, patterns with symbols "
-        "outside the alphabet, 1–4 symbol alphabets); every case: real DFA = model DFA, and the "
+        "outside the alphabet, 1–4 symbol alphabets); programs of 2–4 constructor calls that SHARE ARGUMENT "
+        "OBJECTS (one mutable set passed as input_symbols / symbols_to_count / remainders / substrings / language "
+        "to several calls of the same or different constructors under different alphabets, also as two parameters "
+        "of one call, also edited by the caller between calls; set, frozenset and dict-keys-view objects): five "
+        "fully enumerated sub-domains of 2-call programs + random programs, every result judged against the "
+        "argument values as the caller wrote them (snapshot at program start + the caller's own edits), every "
+        "argument object compared before/after every call, earlier results re-judged at the end of the program, "
+        "and a program in which a call changed an argument in place continued with calls in which that object's "
+        "value decides the language; every case: real DFA = model DFA, and the "
         "real DFA's verdict = brute-force predicate on all words up to the bound (+ foreign "
         "symbol), and |states| = Myhill–Nerode index where minimality is promised; non-trivial = "
         "the constructor returned a DFA with ≥2 states; distinct = distinct (constructor, "
@@ -50,6 +64,12 @@ ASSUMPTIONS = [
     "checked as an announced error); a pattern / word symbol outside Σ makes from_prefix, from_subsequence, "
     "from_finite_language raise a library exception (theorems C15_*_foreign, checked as announced errors); "
     "from_substring / from_suffix / from_substrings accept such patterns (language theorems without hypothesis)",
+    "set-valued arguments are what the signatures admit (collections.abc.Set): set, frozenset, dict keys view; a "
+    "constructor must leave them as they are and its result must not depend on what happens to them later. One "
+    "behaviour of the unchanged library is recorded (stat shared:failure_only_with_live_dict_keys_view_argument + "
+    "evidence notes) instead of reported: an argument that is a dict keys view is stored in the DFA by reference "
+    "(freeze_value copies only set/list/dict), so the caller's later edit of the dict shows through the DFA's "
+    "input_symbols / final_states; with a plain set the same program is right",
     "minimality is claimed only for non-empty patterns over the alphabet, |Σ| ≥ 2, as the property "
     "states; of_length: for ALL numeric parameters and alphabets (C15_of_length_minimal has no hypothesis)",
 ]
@@ -57,7 +77,9 @@ EXPLANATION = ("Theorems C15_* state, for every alphabet / pattern / parameter, 
                "returns a valid DFA accepting exactly the words over Σ that satisfy the predicate (or its "
                "complement), with all states reachable and pairwise distinguishable where minimality is "
                "promised; this run ties the model to the code by differential execution and evaluates the "
-               "property on the real objects with an independent brute-force oracle.")
+               "property on the real objects with an independent brute-force oracle — for single calls on fresh "
+               "arguments and for short programs of calls that share mutable argument objects (a constructor that "
+               "changes or keeps a caller's argument is right on every fresh literal and wrong for such a caller).")
 
 MINIMAL_PROMISED = {"from_prefix", "from_suffix", "from_substring", "from_subsequence", "of_length",
                     "universal_language", "empty_language", "nth_from_start", "nth_from_end",
@@ -108,11 +130,14 @@ def make_set(items: List[str], ordered: bool):
     return set(items)
 
 
-def real_call(case: dict):
+def real_call(case: dict, objs: Optional[Dict[str, Any]] = None):
     """Returns (("ok", dfa) | ("err", class name, is_library_exception), info) where info holds the
-    live iteration orders that were used."""
+    live iteration orders that were used.  `objs` (shared-argument programs): the caller's own objects
+    for the set-valued parameters (`syms`, `count`, `remainders`, `patterns`, `language`), passed as they
+    are instead of a fresh literal built from `case`."""
     c = case["ctor"]
-    sy = set(case["syms"])
+    objs = objs or {}
+    sy = objs["syms"] if "syms" in objs else set(case["syms"])
     info: Dict[str, Any] = {"syms_order": list(sy)}
     try:
         if c == "universal_language":
@@ -127,7 +152,7 @@ def real_call(case: dict):
             d = DFA.from_substring(sy, case["pattern"], contains=case["contains"],
                                    must_be_suffix=case["must_be_suffix"])
         elif c == "from_substrings":
-            S = make_set(case["patterns"], case.get("ordered", False))
+            S = objs["patterns"] if "patterns" in objs else make_set(case["patterns"], case.get("ordered", False))
             info["patterns_order"] = list(S)
             d = DFA.from_substrings(sy, S, contains=case["contains"], must_be_suffix=case["must_be_suffix"])
         elif c == "from_subsequence":
@@ -135,21 +160,21 @@ def real_call(case: dict):
         elif c == "of_length":
             kw = {}
             if case.get("count") is not None:
-                kw["symbols_to_count"] = set(case["count"])
+                kw["symbols_to_count"] = objs["count"] if "count" in objs else set(case["count"])
             d = DFA.of_length(sy, min_length=case["min"], max_length=case["max"], **kw)
         elif c == "count_mod":
             kw = {}
             if case.get("count") is not None:
-                kw["symbols_to_count"] = set(case["count"])
+                kw["symbols_to_count"] = objs["count"] if "count" in objs else set(case["count"])
             if case.get("remainders") is not None:
-                kw["remainders"] = set(case["remainders"])
+                kw["remainders"] = objs["remainders"] if "remainders" in objs else set(case["remainders"])
             d = DFA.count_mod(sy, case["k"], **kw)
         elif c == "nth_from_start":
             d = DFA.nth_from_start(sy, case["symbol"], case["n"])
         elif c == "nth_from_end":
             d = DFA.nth_from_end(sy, case["symbol"], case["n"])
         elif c == "from_finite_language":
-            L = make_set(case["language"], case.get("ordered", False))
+            L = objs["language"] if "language" in objs else make_set(case["language"], case.get("ordered", False))
             info["language_order"] = list(L)
             d = DFA.from_finite_language(sy, L, as_partial=case["as_partial"])
         else:
@@ -530,9 +555,14 @@ def _same_up_to_renaming(a: dict, b: dict) -> bool:
         return False
 
 
-def check_case(ctx: Ctx, case: dict, origin: str, bound: Optional[int] = None) -> None:
+def check_case(ctx: Ctx, case: dict, origin: str, bound: Optional[int] = None, pre=None, report: bool = True,
+               skip_corr: bool = False):
+    """`pre` = (res, info) of a real call already made (shared-argument programs make the call with the
+    caller's objects); `report=False` returns the property failures instead of reporting them (the program
+    runner confirms, shortens and reports the whole program); `skip_corr`: the live argument no longer has
+    the value the caller wrote, so an exact model comparison says nothing."""
     c = case["ctor"]
-    res, info = real_call(case)
+    res, info = pre if pre is not None else real_call(case)
     # make the case self-contained for replay: record the live orders and freeze them
     rcase = dict(case)
     if "patterns_order" in info:
@@ -581,6 +611,10 @@ def check_case(ctx: Ctx, case: dict, origin: str, bound: Optional[int] = None) -
     if ctx.evaluations % 499 == 1:
         ctx.sample(dict(call=describe(rcase), result=(repr(res[1]) if res[0] == "ok" else res[1])[:400],
                         model_line=line, model_answer_equal=same))
+    if not report:
+        if not same and not fails and not skip_corr:
+            ctx.corr_diff(c, rcase, impl_view, mod)
+        return rcase, fails
     for what, key in fails:
         if key is not None:
             # an open finding: report the first few hits only (Ctx keeps a bounded list of failures
@@ -842,12 +876,268 @@ def rand_language(rng, alpha: str, max_n: int, max_len: int) -> List[str]:
     return res
 
 
+# ------------------------------------------------------------------ programs sharing argument objects
+# (generator and pure semantics: harness/c15_programs.py)
+SHARED_BOUND = {0: 3, 1: 6, 2: 5, 3: 4, 4: 3}
+MAX_PROGRAM_REPORTS = 5
+
+
+def _fingerprint(obj) -> Tuple[str, list]:
+    return type(obj).__name__, sorted(obj, key=repr)
+
+
+def light_recheck(case: dict, d: DFA) -> Optional[str]:
+    """A result looked at again after the rest of the program ran (later calls, the caller's own edits of
+    the argument objects): same alphabet, still valid, same verdicts as the predicate on the short words."""
+    try:
+        if set(d.input_symbols) != set(case["syms"]):
+            return (f"the result's input_symbols are now {sorted(d.input_symbols)!r}, the call was made with "
+                    f"{sorted(set(case['syms']))!r}")
+        d.validate()
+        P, contains = predicate(case)
+        sy = "".join(sorted(set(case["syms"])))
+        for w in words_upto(sy, 4 if len(sy) <= 2 else 3):
+            want = P(w) == contains
+            got = d.accepts_input(w)
+            if got != want:
+                return f"accepts_input({w!r}) = {got}, the predicate says {want}"
+    except Exception as e:  # noqa: BLE001
+        return f"the result raises {type(e).__name__} when used"
+    return None
+
+
+def exec_program(ctx: Ctx, program: dict, origin: str, account: bool) -> List[dict]:
+    """Runs the program on the real library with ONE live object per pool entry; judges every result
+    against the values the caller wrote (`simulate` semantics); compares every argument object before and
+    after every call.  `account=False`: confirmation / probe runs (no model, no case counting)."""
+    from harness import c15_programs as cp
+    pool = program["pool"]
+    objs: Dict[str, Any] = {}
+    owners: Dict[str, Any] = {}
+    for name, spec in pool.items():
+        objs[name], owners[name] = cp.build_object(spec)
+    vals = {name: list(spec["items"]) for name, spec in pool.items()}
+    entries: List[dict] = []
+    for i, st in enumerate(program["steps"]):
+        if "mutate" in st:
+            name = st["mutate"]
+            vals[name] = cp.mutate_value(vals[name], st["op"], st["value"])
+            if owners[name] is not None:
+                cp.mutate_real(owners[name], st["op"], st["value"])
+            continue
+        case = cp.semantic_case(st, vals)
+        argobjs = {role: objs[name] for role, name in st["args"].items()}
+        diverged = sorted(name for name in set(st["args"].values())
+                          if _fingerprint(objs[name])[1] != sorted(vals[name], key=repr))
+        before = {name: _fingerprint(o) for name, o in objs.items()}
+        res, info = real_call(case, argobjs)
+        after = {name: _fingerprint(o) for name, o in objs.items()}
+        changes = [dict(obj=name, call=i, ctor=st["ctor"],
+                        roles=sorted(r for r, n in st["args"].items() if n == name),
+                        before=before[name][1], after=after[name][1])
+                   for name in objs if before[name] != after[name]]
+        if account:
+            ctx.stat("shared:argument_objects_compared_before_after", len(objs))
+        if diverged:
+            # the live argument is no longer what the caller wrote: the model is asked about the written value
+            info["syms_order"] = list(case["syms"])
+            if "patterns_order" in info:
+                info["patterns_order"] = list(case["patterns"])
+            if "language_order" in info:
+                info["language_order"] = list(case["language"])
+        bound = SHARED_BOUND.get(len(set(case["syms"])), 3)
+        if account:
+            _rcase, fl = check_case(ctx, case, origin, bound=bound, pre=(res, info), report=False,
+                                    skip_corr=bool(diverged))
+        else:
+            fl = evaluate_property(ctx, case, res, bound)
+        fails = [what for what, _key in fl]
+        if res[0] == "ok" and expected_error(case) is None and not fails:
+            if set(res[1].input_symbols) != set(case["syms"]):
+                fails.append(f"{case['ctor']}: the result is over {sorted(res[1].input_symbols)!r}, the caller "
+                             f"wrote input_symbols = {sorted(set(case['syms']))!r}")
+        entries.append(dict(step=i, case=case, res=res, fails=fails, changes=changes, diverged=diverged, late=False))
+    # every earlier result once more, after the later calls and the caller's edits
+    for e in entries[:-1]:
+        if e["res"][0] == "ok" and not e["fails"] and expected_error(e["case"]) is None:
+            msg = light_recheck(e["case"], e["res"][1])
+            if msg is not None:
+                e["fails"].append(f"{e['case']['ctor']}: right when it was returned, but after the rest of the program "
+                                  + msg)
+                e["late"] = True
+    # … and the last one too when the caller edits an argument after it
+    if entries and program["steps"] and "mutate" in program["steps"][-1]:
+        e = entries[-1]
+        if e["res"][0] == "ok" and not e["fails"] and expected_error(e["case"]) is None:
+            msg = light_recheck(e["case"], e["res"][1])
+            if msg is not None:
+                e["fails"].append(f"{e['case']['ctor']}: right when it was returned, but after the rest of the program "
+                                  + msg)
+                e["late"] = True
+    return entries
+
+
+def report_program_failure(ctx: Ctx, program: dict, step: int, late: bool) -> bool:
+    """Re-confirms the failure on fresh objects through real library calls, shortens the history to the
+    fewest steps that still show it, and reports it.  Returns True when a violation was reported."""
+    from harness import c15_programs as cp
+    ctx.stat("shared:failing_programs")
+    if any(spec["type"] == "keys" for spec in program["pool"].values()):
+        ctl = exec_program(ctx, cp.with_plain_sets(program), "confirm", account=False)
+        if not any(e["fails"] for e in ctl):
+            # only a live dict keys view shows it (the library keeps a non-`set` Set argument by reference
+            # instead of copying it, so the caller's later edit of the dict reaches the DFA): recorded with the
+            # program in the evidence notes, not counted as a violation of C15
+            ctx.stat("shared:failure_only_with_live_dict_keys_view_argument")
+            if ctx.stats["shared:failure_only_with_live_dict_keys_view_argument"] <= 3:
+                ents = exec_program(ctx, program, "confirm", account=False)
+                msgs = [e["fails"][0] for e in ents if e["fails"]]
+                ctx.note("only with a dict keys view as the argument (a plain set gives the right result): "
+                         + cp.describe_program(program) + " — " + (msgs[0] if msgs else "not reproduced"))
+            return False
+    if ctx.stats.get("shared:violations_reported", 0) >= MAX_PROGRAM_REPORTS:
+        ctx.stat("shared:further_failing_programs_not_shortened")
+        ctx.n_prop_fails += 1
+        return False
+    best = None
+    for sub, pos in cp.subprograms(program, step, late):
+        ents = exec_program(ctx, sub, "confirm", account=False)
+        hit = [e for e in ents if e["step"] == pos and e["fails"]]
+        if hit:
+            best = (sub, pos, hit[0], ents)
+            break
+    if best is None:
+        ctx.stat("shared:failure_not_reconfirmed_on_fresh_objects")
+        return False
+    sub, pos, entry, ents = best
+    alone = cp.n_calls(sub) == 1 and len(sub["steps"]) == 1
+    notes = []
+    for e in ents:
+        for ch in e["changes"]:
+            notes.append(f"{ch['obj']} ({'/'.join(cp.PARAM_NAME[r] for r in ch['roles'])}) was changed in place by "
+                         f"call [{ch['call'] + 1}] DFA.{ch['ctor']}: {ch['before']!r} → {ch['after']!r}")
+    what = (f"{cp.describe_program(sub)} — step [{pos + 1}] = {describe(entry['case'])} (arguments as the caller "
+            f"wrote them): {entry['fails'][0]}"
+            + ("; " + "; ".join(notes) if notes else "")
+            + ("" if alone else "; the same call on fresh argument objects is right"
+               if not _fails_alone(ctx, sub, pos) else "; the same call fails on fresh argument objects too"))
+    ctx.stat("shared:violations_reported")
+    ctx.stat("shared:failing_history_length:" + str(len(sub["steps"])))
+    ctx.prop_fail("calls sharing argument objects: " + what,
+                  dict(program=sub, failing_step=pos, what=entry["fails"][0]), None)
+    return True
+
+
+def _fails_alone(ctx: Ctx, program: dict, pos: int) -> bool:
+    from harness import c15_programs as cp
+    case = cp.simulate(program)[pos]
+    if case is None:
+        return False
+    res, _info = real_call(dict(case, ordered=True) if ("patterns" in case or "language" in case) else case)
+    return bool(evaluate_property(ctx, case, res, SHARED_BOUND.get(len(set(case["syms"])), 3)))
+
+
+def run_program(ctx: Ctx, program: dict, origin: str) -> None:
+    from harness import c15_programs as cp
+    entries = exec_program(ctx, program, origin, account=True)
+    record_program_shape(ctx, program, entries)
+    failing = [e for e in entries if e["fails"]]
+    if failing:
+        report_program_failure(ctx, program, failing[0]["step"], failing[0]["late"])
+        return
+    changed = [ch for e in entries for ch in e["changes"]]
+    if not changed:
+        return
+    # a call changed a caller's argument in place and no result of this program is wrong: continue the
+    # program with calls in which the value of that object decides the language
+    if ctx.stats.get("shared:violations_reported", 0) >= MAX_PROGRAM_REPORTS:
+        ctx.stat("shared:in_place_change_not_probed_after_enough_reports")
+        return
+    chars = "".join(sorted({ch for spec in program["pool"].values() for it in spec["items"] if isinstance(it, str)
+                            for ch in it} | {"a", "b"}))
+    for ch in changed:
+        prefix_ids = [i for i in range(ch["call"] + 1)]
+        calls_in_prefix = [i for i in prefix_ids if "ctor" in program["steps"][i]]
+        if len(calls_in_prefix) > 3:
+            first_kept = calls_in_prefix[-3]
+            prefix_ids = [i for i in prefix_ids if i >= first_kept]
+        for extra, pst in cp.probe_steps(ch["obj"], program["pool"][ch["obj"]], chars):
+            probe = dict(pool={**program["pool"], **extra},
+                         steps=[program["steps"][i] for i in prefix_ids] + [pst])
+            ctx.stat("shared:probe_programs_after_in_place_change")
+            ents = exec_program(ctx, probe, origin, account=False)
+            bad = [e for e in ents if e["fails"]]
+            if bad:
+                if report_program_failure(ctx, cp.prune_pool(probe), bad[0]["step"], bad[0]["late"]):
+                    return
+    ctx.stat("shared:in_place_change_without_wrong_language")
+
+
+def record_program_shape(ctx: Ctx, program: dict, entries: List[dict]) -> None:
+    from harness import c15_programs as cp
+    ctx.stat("shared:programs")
+    ctx.stat(f"shared:calls_per_program:{cp.n_calls(program)}")
+    if any("mutate" in st for st in program["steps"]):
+        ctx.stat("shared:programs_with_caller_edit_between_calls")
+    refs: Dict[str, List[Tuple[str, str, str]]] = {}
+    for e in entries:
+        st = program["steps"][e["step"]]
+        seen_here: Dict[str, int] = {}
+        for role, name in st["args"].items():
+            refs.setdefault(name, []).append((role, st["ctor"], e["case"]["syms"]))
+            seen_here[name] = seen_here.get(name, 0) + 1
+            if role in ("count", "patterns", "language"):
+                v = e["case"].get(role) or ""
+                if any(ch not in e["case"]["syms"] for it in v for ch in it):
+                    ctx.stat(f"shared:{cp.PARAM_NAME[role]}_with_symbol_outside_the_call_alphabet")
+        if any(k > 1 for k in seen_here.values()):
+            ctx.stat("shared:one_object_as_two_parameters_of_one_call")
+        for ch in e["changes"]:
+            ctx.stat(f"shared:argument_changed_in_place:{st['ctor']}.{'/'.join(cp.PARAM_NAME[r] for r in ch['roles'])}")
+        if e["diverged"]:
+            ctx.stat("shared:call_on_argument_no_longer_as_written")
+    for name, rs in refs.items():
+        ctx.stat(f"shared:object_type:{program['pool'][name]['type']}")
+        if len(rs) >= 2:
+            ctx.stat("shared:object_roles:" + "+".join(sorted({cp.PARAM_NAME[r] for r, _c, _s in rs})))
+            if len({c for _r, c, _s in rs}) > 1:
+                ctx.stat("shared:object_passed_to_different_constructors")
+            if len({s for _r, _c, s in rs}) > 1:
+                ctx.stat("shared:object_passed_under_different_alphabets")
+    if refs:
+        ctx.stat(f"shared:max_uses_of_one_object:{max(len(rs) for rs in refs.values())}")
+
+
+def shared_argument_programs(ctx: Ctx) -> None:
+    from harness import c15_programs as cp
+    import time
+    t0 = time.time()
+    for sub, program in cp.exhaustive_programs(ctx.thorough()):
+        ctx.stat("shared:subfamily:" + sub)
+        run_program(ctx, program, "shared_args_exhaustive")
+    ctx.exhaustive("programs of 2 constructor calls sharing argument objects, every result judged against the "
+                   "argument values as written and every argument compared before/after each call: one symbols_to_count "
+                   "set through all pairs of of_length / count_mod calls over alphabets {a,b}/{a,c}/{b}; one input_symbols "
+                   "set through all 13×13 ordered pairs of constructor calls (also passed as the second set parameter of "
+                   "the same call); one substrings/language set through all pairs of from_substrings / "
+                   "from_finite_language calls over {a,b}/{a,b,c}; one remainders set under moduli 2…4; every "
+                   "constructor followed by the caller's own edit of the alphabet object (set and dict keys view)")
+    for _ in range(ctx.budget(400, 6000)):
+        ctx.stat("shared:subfamily:random")
+        run_program(ctx, cp.random_program(ctx.rng), "shared_args_random")
+    ctx.note(f"programs sharing argument objects: {ctx.stats.get('shared:programs', 0)} programs, "
+             f"{ctx.stats.get('shared_args_exhaustive', 0) + ctx.stats.get('shared_args_random', 0)} calls judged, "
+             f"{time.time() - t0:.1f} s")
+
+
 def run(ctx: Ctx):
     rng = ctx.rng
     thorough = ctx.thorough()
     # 0. corpus
     for case in CORPUS:
         check_case(ctx, dict(case), "corpus")
+    # 0b. programs of 2–4 calls sharing (mutable) argument objects
+    shared_argument_programs(ctx)
     # 1. bounded-exhaustive
     for syms, maxlen in (("ab", 4), ("abc", 3), ("a", 4)):
         for p in words_upto(syms, maxlen):
@@ -970,8 +1260,11 @@ def run(ctx: Ctx):
 def replay(ctx: Ctx, path: str) -> int:
     data = json.load(open(path))
     rp = data.get("replay", data)
-    case = rp.get("case", rp)
-    check_case(ctx, dict(case), "replay")
+    if "program" in rp:
+        run_program(ctx, rp["program"], "replay")
+    else:
+        case = rp.get("case", rp)
+        check_case(ctx, dict(case), "replay")
     if ctx.prop_fails:
         print(f"VIOLATION property=C15 replay={path}")
         print("  " + ctx.prop_fails[0]["what"])
